@@ -111,6 +111,31 @@ def run(ctx):
               ("any alone", schema_for("integer", ['type: "any"']), "ok"),
               ("or with a foreign rule", schema_for("integer", ['or: [{type: "integer"}, {type: "string"}]', "min: 1"]), "err"),
               ("or alone", schema_for("integer", ['or: [{type: "integer"}, {type: "string"}]']), "ok")]
+    # ---- the same tables inside the rule-sets of an "or" rule (a different loader, a MixedNode instead of the example's node) ----
+    SCAL = ("string", "integer", "float", "boolean", "null")
+    other = {"string": "integer", "integer": "string", "float": "string", "boolean": "string", "null": "string"}
+    for kind in SCAL:
+        for rule, kinds in SINGLE:
+            if rule.startswith(("nullable", "const", "additionalProperties", "minItems", "maxItems")):
+                continue
+            items.append(("single rule in an or rule-set", '%s // {or: [{type: "%s", %s}, {type: "%s"}]}' % (EX[kind], kind, rule, other[kind]), "ok" if kind in kinds else "err"))
+    for ex in ('"abc"', "5"):
+        for rs, ok in (("min: 2, max: 1", False), ("min: 1, max: 2", True), ("minLength: 3, maxLength: 2", False), ("minLength: 2, maxLength: 3", True), ("min: 5, max: 5, exclusiveMinimum: true", False),
+                       ("exclusiveMinimum: true", False), ("exclusiveMaximum: false", False), ("max: 3, exclusiveMinimum: true", False)):
+            numeric = rs.startswith(("min:", "max:", "exclusive"))
+            t = "integer" if numeric else "string"
+            o = "string" if numeric else "integer"
+            for typed in (True, False):
+                # the example satisfies the second alternative; the first one carries the pair
+                if ex == ('"abc"' if o == "string" else "5"):
+                    items.append(("paired bounds in an or rule-set" if not ok else "ordered bounds in an or rule-set",
+                                  '%s // {or: [{%s%s}, {type: "%s"}]}' % (ex, ('type: "%s", ' % t) if typed else "", rs, o), "ok" if ok else "err"))
+    items += [("unknown rule in an or rule-set", '5 // {or: [{type: "integer", minimum: 1}, {type: "string"}]}', "err"),
+              ("duplicate rule in an or rule-set", '5 // {or: [{type: "integer", min: 1, min: 1}, {type: "string"}]}', "err"),
+              ("optional in an or rule-set", '5 // {or: [{type: "integer", optional: true}, {type: "string"}]}', "err"),
+              ("precision without decimal in an or rule-set", '5.5 // {or: [{type: "float", precision: 1}, {type: "string"}]}', "err"),
+              ("precision with decimal in an or rule-set", '5.5 // {or: [{type: "decimal", precision: 1}, {type: "string"}]}', "ok"),
+              ("format excludes length in an or rule-set", '"a@b.cc" // {or: [{type: "email", minLength: 1}, {type: "integer"}]}', "err")]
     run_checks(ctx, items)
     ctx.extra["table_cases"] = len(items)
     # ---- order independence ----
